@@ -12,6 +12,8 @@ from concurrent.futures import ThreadPoolExecutor
 
 VERIF = os.path.dirname(os.path.dirname(os.path.abspath(__file__)))
 ALL = ["C%02d" % i for i in range(1, 21)]
+SNAP_HARNESS = None  # snapshot of the harness sources and of the driver taken when the run starts, so that work on
+SNAP_DRIVER = None   # /verif can go on while a long self-test runs
 
 
 def run_patch(tag, patch, checks):
@@ -28,8 +30,10 @@ def run_patch(tag, patch, checks):
         if p.returncode != 0:
             return tag, {"apply-failed": p.stderr[-300:]}
         drv = os.path.join(root, "bppdriver")
-        shutil.copy(os.path.join(VERIF, "lean", ".lake", "build", "bin", "bppdriver"), drv)
+        shutil.copy(SNAP_DRIVER or os.path.join(VERIF, "lean", ".lake", "build", "bin", "bppdriver"), drv)
         env = dict(os.environ, VERIF_SKIP_OBLIGATIONS="1", VERIF_DRIVER_BIN=drv, VERIF_DRIVER=drv, VERIF_REPO=repo, VERIF_BUILD=os.path.join(root, "build"), VERIF_OUT=os.path.join(root, "out"), VERIF_NOLOCK="1")
+        if SNAP_HARNESS:
+            env["VERIF_HARNESS_SRC"] = SNAP_HARNESS
         for c in checks:
             t0 = time.time()
             q = subprocess.run([os.path.join(VERIF, "check"), c, "--tier", "quick"], capture_output=True, text=True, env=env, cwd=VERIF)
@@ -48,6 +52,14 @@ def main():
     jobs = int(a[a.index("--jobs") + 1]) if "--jobs" in a else 4
     only = a[a.index("--only") + 1].split(",") if "--only" in a else None
     checks_arg = a[a.index("--checks") + 1] if "--checks" in a else ("own" if mode == "seeds" else "all")
+    global SNAP_HARNESS, SNAP_DRIVER
+    snap = "/var/tmp/bppverif.%d.snap" % os.getpid()
+    shutil.rmtree(snap, ignore_errors=True)
+    os.makedirs(snap)
+    subprocess.run(["rsync", "-a", "--exclude", "Cargo.lock", os.path.join(VERIF, "harness") + "/", os.path.join(snap, "harness") + "/"], check=True)
+    shutil.copy(os.path.join(VERIF, "lean", ".lake", "build", "bin", "bppdriver"), os.path.join(snap, "bppdriver"))
+    SNAP_HARNESS, SNAP_DRIVER = os.path.join(snap, "harness"), os.path.join(snap, "bppdriver")
+    record = "--record" in a
     tasks = []
     if mode == "seeds":
         for d in sorted(glob.glob(os.path.join(VERIF, "seeded", "*/"))):
@@ -76,6 +88,20 @@ def main():
             line = " ".join("%s:%s" % (c, "VIOL" if r.get("rc") == 1 else ("ok" if r.get("rc") == 0 else "?")) for c, r in res.items() if isinstance(r, dict))
             print(tag, line, flush=True)
     json.dump(out, open(os.path.join(VERIF, ".build", "selftest_%s.json" % mode), "w"), indent=1)
+    shutil.rmtree(snap, ignore_errors=True)
+    if record and mode == "seeds":
+        # write the outcome into the seeds' meta.json (field "checks", as confirm_seed.sh does)
+        for tag, res in out.items():
+            mp = os.path.join(VERIF, "seeded", tag, "meta.json")
+            if os.path.exists(mp):
+                meta = json.load(open(mp))
+                old = {c.split(":")[0]: c for c in meta.get("checks", []) if isinstance(c, str) and ":" in c}
+                for c, r in res.items():
+                    if isinstance(r, dict):
+                        old[c] = "%s:rc=%s" % (c, r.get("rc"))
+                meta["checks"] = [old[k] for k in sorted(old)]
+                meta.setdefault("first_lines", {}).update({c: r.get("first", "") for c, r in res.items() if isinstance(r, dict) and r.get("rc") == 1})
+                json.dump(meta, open(mp, "w"), indent=1)
     for tag, res in out.items():
         for c, r in res.items():
             if isinstance(r, dict) and r.get("rc") == 1 and mode == "dir":
